@@ -74,8 +74,10 @@ func configs(prop string, thorough bool) []*Config {
 			},
 			Logins: []LoginDef{{PID: 101}, {PID: 102}},
 		}
+		dup := configs("C16", false)[1]
+		dup.Name = "C02-second-login-for-a-waiting-pid"
 		if !thorough {
-			return []*Config{c, r, st}
+			return []*Config{c, r, st, dup}
 		}
 		c3 := &Config{Name: "C02-3sess", CutMode: 1, OSeq: true, OIntact: true,
 			Sess: []SessDef{
@@ -85,7 +87,7 @@ func configs(prop string, thorough bool) []*Config {
 			},
 			Logins: []LoginDef{{PID: 101}, {PID: 102}, {PID: 103}},
 		}
-		return []*Config{c, r, st, c3}
+		return []*Config{c, r, st, dup, c3}
 	case "C10":
 		// C10(a): the production JSON writer under every history of C02's alphabet:
 		// one Write per event, whole event per Write, nothing written twice.
@@ -130,7 +132,9 @@ func configs(prop string, thorough bool) []*Config {
 	case "C09":
 		c := &Config{Name: "C09-reuse", CutMode: 1, OSeq: true, OIntact: true,
 			Sess: []SessDef{
-				{ID: "1", PID: "101", Events: []auparse.AuditMessageType{tLOGIN, tEV, tDISP, tEV, tEV2}}, // two stragglers after the end
+				// (credentials acquired and refreshed but never individually disposed of - an abandoned su / sudo -i -
+				// before sshd's own credential disposal; two stragglers after the end)
+				{ID: "1", PID: "101", Events: []auparse.AuditMessageType{tLOGIN, auparse.AUDIT_CRED_ACQ, auparse.AUDIT_CRED_REFR, tDISP, tEV, tEV2}},
 				{ID: "2", PID: "101", Events: []auparse.AuditMessageType{tLOGIN, tEV, tDISP}},
 				{ID: "3", PID: "102", Events: []auparse.AuditMessageType{tLOGIN, tEV}},
 			},
@@ -169,7 +173,15 @@ func configs(prop string, thorough bool) []*Config {
 			c.Sess = append(c.Sess, SessDef{ID: "3", PID: "103", Events: []auparse.AuditMessageType{tLOGIN, tEV}})
 			c.Logins = append(c.Logins, LoginDef{PID: 103})
 		}
-		return []*Config{c}
+		// two logins for one pid while nothing of its session has been seen (a re-sent line, a pid reused early):
+		// the one that waits is the newer one, and cleanup judges it by ITS age
+		w := &Config{Name: "C16-second-login-for-a-waiting-pid", CutMode: 3, OSeq: true,
+			Sess: []SessDef{
+				{ID: "1", PID: "101", Events: ev3},
+			},
+			Logins: []LoginDef{{PID: 101}, {PID: 101}, {PID: 102}, {PID: 101, SameAs: 1}}, // the last one re-delivers the first
+		}
+		return []*Config{c, w}
 	}
 	return nil
 }
